@@ -2,10 +2,31 @@
 
 package simrt
 
-import "runtime"
+import (
+	"runtime"
+	"unsafe"
+)
 
 // RaceBuild reports whether the binary was built with -race.
 const RaceBuild = true
 
 func raceDisable() { runtime.RaceDisable() }
 func raceEnable()  { runtime.RaceEnable() }
+
+// RaceSyncOn / RaceSyncOff let the driver run program code (e.g. the stats
+// handler) on the scheduler goroutine with synchronisation events visible to
+// the detector, as they would be on a goroutine of the program.
+func RaceSyncOn()  { runtime.RaceEnable() }
+func RaceSyncOff() { runtime.RaceDisable() }
+
+var poolRaceHash [128]uint64
+
+func poolRaceAddr(p unsafe.Pointer) unsafe.Pointer {
+	h := uint32((uint64(uint32(uintptr(p))) * 0x85ebca6b) >> 16)
+	return unsafe.Pointer(&poolRaceHash[h%uint32(len(poolRaceHash))])
+}
+
+// poolRelease / poolAcquire give the detector the happens-before edge
+// sync.Pool gives it: Put(x) happens before the Get that returns x.
+func poolRelease(p unsafe.Pointer) { runtime.RaceReleaseMerge(poolRaceAddr(p)) }
+func poolAcquire(p unsafe.Pointer) { runtime.RaceAcquire(poolRaceAddr(p)) }
